@@ -213,7 +213,7 @@ class ArithFunctions(InterpreterFunctions):
         rhs: int
         (lhs, rhs) = args
         assert rhs >= 0
-        return (lhs << rhs,)
+        return (to_signed(lhs << rhs, _int_bitwidth(interpreter, op.result.type)),)
 
     @impl(arith.ShRSIOp)
     def run_shrsi(
